@@ -251,11 +251,12 @@ def linSpline (o : XOps α) (box : Box) (eps : Float) (up : List α) (inverse : 
   if inverse then
     let idx := searchsortedG o eps cdf x'
     let bnd := linspace01 o K
-    let slopes := List.zipWith o.div (diffsG o cdf) (diffsG o bnd)
-    let offsets := zipWith3 (fun c s b => o.sub c (o.mul s b)) (cdf.drop 1) slopes (bnd.drop 1)
+    -- linear.py (after the fix): slope of bin k = pdf_k * num_bins (what the forward pass uses), line anchored at the right knot
+    let slopes := pdf.map (fun p => o.mul p (o.ofNat K))
     let s ← getI slopes idx
-    let off ← getI offsets idx
-    let out := o.clamp o.zero o.one (o.div (o.sub x' off) s)
+    let rc ← getI (cdf.drop 1) idx
+    let rb ← getI (bnd.drop 1) idx
+    let out := o.clamp o.zero o.one (o.add rb (o.div (o.sub x' rc) s))
     let ld := o.neg (o.log s)
     return (o.add (o.mul out (o.ofFloat (box.right - box.left))) (o.ofFloat box.left), o.sub ld bl)
   else
